@@ -769,6 +769,15 @@ def _calls_in(node):
         def visit_SimpleCallNode(s, n):
             out.append(n)
             s.visitchildren(n)
+
+        def visit_GeneralCallNode(s, n):
+            # f(a, b, key=value): give it the same `.args` view as a simple call
+            try:
+                n.args = list(n.positional_args.args)
+            except AttributeError:
+                n.args = []
+            out.append(n)
+            s.visitchildren(n)
     V().visit(node)
     return out
 
@@ -780,7 +789,8 @@ class PathExplosion(Exception):
 class RefPaths:
     """All paths through one function body; per path the ledger {variable: balance}."""
 
-    def __init__(self, src_lines, limit=50000, ref=None, deref=None):
+    def __init__(self, src_lines, limit=50000, ref=None, deref=None, may_return=None):
+        self.may_return = may_return or {}   # callee -> positions of parameters it may return
         self.src = src_lines
         self.limit = limit
         self.REF = REF if ref is None else ref
@@ -885,6 +895,7 @@ class RefPaths:
             if f in self.REF and c.args:
                 a = _etext(c.args[0]) if self.REF is REF else '<calls>'
                 led[a] = led.get(a, 0) + 1
+                led.pop('<dep>' + a, None)      # referenced: no longer at the operands' mercy
             elif f in self.DEREF and c.args:
                 a = _etext(c.args[-1])
                 led[a] = led.get(a, 0) - 1
@@ -899,10 +910,33 @@ class RefPaths:
                     base = self.container_base.get(an.name)
                 if base:
                     led['<crel>' + base] = led.get('<crel>' + base, 0) + 1
+                for k_ in [k_ for k_ in led if k_.startswith('<dep>')]:
+                    x_ = k_[5:]
+                    if a in led[k_] and led.get(x_, 0) <= 0 and not led.get('<null>' + x_):
+                        led['<early>'] = (a, x_)
                 if f in SHALLOW_DEREF:
                     # releases the node WITHOUT releasing its successors when the count reaches
                     # zero: legitimate only for handing a floating result back to the caller
                     led['<shallow>' + a] = 1
+        if isinstance(st, Nodes.SingleAssignmentNode) and isinstance(st.lhs, ExprNodes.NameNode):
+            x = st.lhs.name
+            # a scalar that still carries references is overwritten: they can no longer be
+            # released through it
+            if self.REF is REF and led.get(x, 0) > 0 and x not in self.container_vars:
+                led['<orphan>' + x] = led.get('<orphan>' + x, 0) + led[x]
+                led[x] = 0
+            # result that may BE one of the (referenced) operands: they must not be released
+            # before the result is referenced or known to be NULL
+            led.pop('<dep>' + x, None)
+            r = st.rhs
+            if isinstance(r, ExprNodes.SimpleCallNode) and _fname(r) in self.may_return:
+                texts = [_etext(a) for a in r.args]
+                deps = tuple(sorted(
+                    t for i, t in enumerate(texts)
+                    if i in self.may_return[_fname(r)] and led.get(t, 0) > 0
+                    and texts.count(t) == 1))
+                if deps:
+                    led['<dep>' + x] = deps
         # owned results:  x = OWNED(...)
         if isinstance(st, Nodes.SingleAssignmentNode) and isinstance(
                 st.rhs, ExprNodes.SimpleCallNode) and _fname(st.rhs) in OWNED:
@@ -994,6 +1028,7 @@ class RefPaths:
                     if nt is not None and nt[1]:
                         l_true = dict(led_)
                         l_true[nt[0]] = 0       # a NULL pointer carries no reference
+                        l_true.pop('<dep>' + nt[0], None)
                     for l, c in self._paths([body], 0, l_true, c2):
                         r += cont(l, c)
                 if known is not True:
@@ -1003,6 +1038,7 @@ class RefPaths:
                     if nt is not None and not nt[1]:
                         l_false = dict(led_)
                         l_false[nt[0]] = 0
+                        l_false.pop('<dep>' + nt[0], None)
                     r += rec(k + 1, l_false, c2)
                 return r
             return rec(0, led, conds)
@@ -1047,12 +1083,40 @@ class RefPaths:
         return cont(l, c2)
 
 
+def _param_names(node):
+    out = []
+    d = node.declarator if hasattr(node, 'declarator') else None
+    args = getattr(d, 'args', None) if d is not None else getattr(node, 'args', None)
+    for a in args or []:
+        dd_ = a.declarator
+        while not getattr(dd_, 'name', None) and hasattr(dd_, 'base'):
+            dd_ = dd_.base
+        nm = getattr(dd_, 'name', None) or getattr(a.base_type, 'name', None)
+        out.append(nm)
+    return out
+
+
 def ref_functions(path):
     """-> list of dict(cls, name, exits, explosion) for functions that touch REF/DEREF/OWNED."""
     tree, text = cy_parse(path)
     src = text.split('\n')
     out = []
     has_field = bool(re.search(r'cdef\s+public\s+int\s+_ref\b', text))
+    may_return = {}
+    for cls, name, node in cy_functions(tree):
+        params = _param_names(node)
+        pos = set()
+
+        class RV(TreeVisitor):
+            def visit_Node(s, n):
+                s.visitchildren(n)
+
+            def visit_ReturnStatNode(s, n):
+                if isinstance(n.value, ExprNodes.NameNode) and n.value.name in params:
+                    pos.add(params.index(n.value.name))
+        RV().visit(node.body)
+        if pos and cls is None:
+            may_return[name] = pos
     for cls, name, node in cy_functions(tree):
         cs = {_fname(c) for c in _calls_in(node.body)}
         touches_ref_field = bool(re.search(r"\._ref\s*(\+=|-=|=)[^=]", "\n".join(
@@ -1063,7 +1127,7 @@ def ref_functions(path):
             touches_ref_field = True
         if not (cs & (REF | DEREF | OWNED | set(METHOD_REF))) and not touches_ref_field:
             continue
-        rp = RefPaths(src)
+        rp = RefPaths(src, may_return=may_return)
         try:
             exits = rp.run(node.body)
             out.append(dict(cls=cls, name=name, exits=exits, explosion=False, steps=rp.steps,
